@@ -229,6 +229,44 @@ def check(res, tier):
             res.violation("list-of-lists" if name == "nested-list" else "combo:" + name,
                           "accepted by the front end but not compiled (%s): %s" % (r.cls, name),
                           {"program": src, "implementation": r.as_dict()})
+    # generic declarations of one module instantiated with types their module cannot see (declared by the importer, or by a
+    # sibling module imported before / after): accepted by the front end implies compiled, with modules linked and kept apart
+    xjobs, xmeta = [], []
+    PAAR = ('Wir nennen die generische öffentliche Kombination aus\n\tdem öffentlichen T erstes,\n\tdem öffentlichen T zweites,\nein Paar, und erstellen sie so:\n'
+            '\t"Paar(<erstes>, <zweites>)"\n\nDie öffentliche generische Funktion Dasselbe mit dem Parameter w vom Typ T, gibt ein T zurück, macht:\n\tGib w zurück.\n'
+            'Und kann so benutzt werden:\n\t"dasselbe <w>"\n')
+    ORTE = ('Wir nennen die öffentliche Kombination aus\n\tder öffentlichen Zahl x mit Standardwert 0,\n\tder öffentlichen Zahl y mit Standardwert 0,\neinen Ort, und erstellen sie so:\n'
+            '\t"Ort(<x>, <y>)"\n')
+    PUNKT = 'Wir nennen die Kombination aus\n\tder Zahl x mit Standardwert 0,\n\tder Zahl y mit Standardwert 0,\neinen Punkt, und erstellen sie so:\n\t"Punkt(<x>, <y>)"\n'
+    XT = {"local-struct": ("Punkt", "Der", "(Punkt(1, 2))", PUNKT, ['Binde "paar" ein.']),
+          "sibling-after": ("Ort", "Der", "(Ort(1, 2))", "", ['Binde "paar" ein.', 'Binde "orte" ein.']),
+          "sibling-before": ("Ort", "Der", "(Ort(1, 2))", "", ['Binde "orte" ein.', 'Binde "paar" ein.']),
+          "local-definition": ("Hausnummer", "Die", "(1 als Hausnummer)", "Wir definieren eine Hausnummer als eine Zahl.\n", ['Binde "paar" ein.']),
+          "primitive": ("Zahl", "Die", "1", "", ['Binde "paar" ein.']), "text": ("Text", "Der", '"a"', "", ['Binde "paar" ein.'])}
+    for xl, (tn, art, val, decl, imports) in XT.items():
+        uses = {"declare": "Das %s-Paar p ist Paar(%s, %s).\n" % (tn, val, val),
+                "field": "Das %s-Paar p ist Paar(%s, %s).\n%s %s e ist erstes von p.\n" % (tn, val, val, art, tn),
+                "generic-function": "%s %s d ist dasselbe %s.\n" % (art, tn, val),
+                "generic-function-of-instance": "Das %s-Paar p ist Paar(%s, %s).\nDas %s-Paar q ist dasselbe p.\n" % (tn, val, val, tn),
+                "list-of-instances": "Das %s-Paar p ist Paar(%s, %s).\nDie %s-Paar Liste l ist eine Liste, die aus p, p besteht.\n" % (tn, val, val, tn),
+                "boxed": "Das %s-Paar p ist Paar(%s, %s).\nDie Variable v ist p als Variable.\n" % (tn, val, val)}
+        for ul, body in uses.items():
+            for sep in (False, True):
+                files = {"paar.ddp": PAAR, "orte.ddp": ORTE, "main.ddp": 'Binde "Duden/Ausgabe" ein.\n' + "\n".join(imports) + "\n" + decl + body}
+                xjobs.append((files, pipeline.Config(opt=0, module_link=not sep), {"compile_only": True}))
+                xmeta.append("%s:%s:%s" % (xl, ul, "separate" if sep else "linked"))
+    xouts = pipeline.farm(ddp, xjobs)
+    res.evaluations += len(xjobs)
+    xrefused = 0
+    for (files, _, _), lab, r in zip(xjobs, xmeta, xouts):
+        if r.cls == "compile-rejected" and "Fehlerhafter Quellcode" in r.compile_out:
+            xrefused += 1
+            continue
+        res.nontrivial("cross-module-generic:" + lab)
+        if r.cls != "ok":
+            res.violation("cross-module-generic:" + lab, "accepted by the front end but not compiled (%s): a generic declaration of an imported module instantiated with %s" % (r.cls, lab),
+                          {"files": files, "implementation": r.as_dict(), "note": "replay: write the files, kddp kompiliere main.ddp -O 0"})
+    res.extra.update({"cross_module_generic_programs": len(xjobs), "cross_module_generic_refused_by_front_end": xrefused})
     res.extra.update({"cells": len(cells), "accepted_cells": len(accepted), "context_programs": len(jobs),
                       "failed_cells": len(failed_cells), "disagreements": mism + lowmis})
     res.exhaustive = True
